@@ -133,6 +133,66 @@ fn run_crash(case: &Case) -> Outcome {
         lib.close();
         Ok((img, span))
     };
+    // the same operation with ONE failing seam call (no crash); every call that returns an error
+    // is retried (<= 2 times).  Returns /s0 as the SAME session reads it afterwards and the image,
+    // or None when a call stayed failed / panicked (C13's business).
+    let exec_fail_retry = |fail_at: u64| -> Option<(Vec<u8>, Vec<u8>)> {
+        let disk = SimDisk::new(base.clone());
+        let mut lib = Lib::open(disk.clone(), false, case.bufsize).ok()?;
+        lib.budget_base = 400_000;
+        let k0 = disk.k();
+        disk.0.borrow_mut().plan = vec![Fault { k: k0 + fail_at, kind: FaultKind::Fail }];
+        for op in case.ops[build_len..].iter() {
+            let mut tries = 0;
+            loop {
+                match lib.exec(op) {
+                    Res::Panic(_) | Res::Hang => {
+                        disk.0.borrow_mut().plan = vec![Fault { k: 1, kind: FaultKind::Crash }];
+                        disk.0.borrow_mut().crashed = true;
+                        lib.close();
+                        return None;
+                    }
+                    r if r.is_err() && tries < 2 => tries += 1,
+                    r if r.is_err() => {
+                        lib.close();
+                        return None;
+                    }
+                    _ => break,
+                }
+            }
+        }
+        let _ = lib.exec(&Op::HFlush { h: 0 });
+        lib.drop_handle(0);
+        let live = match lib.exec(&Op::ReadWhole("/s0".into())) {
+            Res::Bytes(b) => b,
+            _ => {
+                lib.close();
+                return None;
+            }
+        };
+        let img = disk.snapshot();
+        lib.close();
+        Some((live, img))
+    };
+    let read_s0 = |img: &[u8]| -> Option<Vec<u8>> {
+        let mut lib = Lib::open(SimDisk::new(img.to_vec()), false, case.bufsize).ok()?;
+        lib.budget_base = 400_000;
+        let r = match lib.exec(&Op::ReadWhole("/s0".into())) {
+            Res::Bytes(b) => Some(b),
+            _ => None,
+        };
+        lib.close();
+        r
+    };
+    // /s0 before the operation and after it ran undisturbed: a byte beyond the old length that
+    // is neither zero nor the byte the operation itself puts there is somebody else's old data
+    let s0_old = read_s0(&base);
+    let s0_fin = exec(0).ok().and_then(|(img, _)| read_s0(&img));
+    let grows_by_set_len = matches!(case.ops.last(), Some(Op::HSetLen { .. }));
+    let foreign_byte = |content: &[u8]| -> Option<usize> {
+        let (old, fin) = (s0_old.as_ref()?, s0_fin.as_ref()?);
+        (old.len()..content.len()).find(|&p| content[p] != 0 && (p >= fin.len() || content[p] != fin[p]))
+    };
     let span = match exec(0) {
         Ok((_, span)) => span,
         Err(_) => {
@@ -170,6 +230,55 @@ fn run_crash(case: &Case) -> Outcome {
         };
         lib.budget_base = 400_000;
         o.stats.probe("crash_image_accepted");
+        // (i) the crash image itself: whatever length /s0 has in it, the bytes beyond its old
+        // length are zero or the operation's own
+        if let Res::Bytes(now) = lib.exec(&Op::ReadWhole("/s0".into())) {
+            if s0_old.as_ref().map_or(false, |old| now.len() > old.len()) {
+                o.stats.probe("crash_image_shows_the_stream_longer");
+            }
+            if let Some(pos) = foreign_byte(&now) {
+                let mut rc = case.clone();
+                rc.params.insert("only_k".into(), k as i64);
+                o.replay_case = Some(rc);
+                o.violations.push(Violation {
+                    property: "C08".into(),
+                    rule: "stale-in-crash-image".into(),
+                    site: "crash-image".into(),
+                    msg: format!("crash at seam call {} of a growing operation, bytes reopened: \"/s0\" (was {} bytes) has {} bytes and byte {} reads {:#04x} - neither zero nor what the operation writes there", k, s0_old.as_ref().map_or(0, |o| o.len()), now.len(), pos, now[pos]),
+                    step: 0,
+                });
+                break 'all;
+            }
+        }
+        // (ii) the same seam call FAILS instead (no crash), the failed call is retried to success:
+        // the bytes gained by a set_len that returned Ok are zero, in the session and in the bytes
+        if grows_by_set_len {
+            if let Some((live, img2)) = exec_fail_retry(k) {
+                o.stats.sub_runs += 1;
+                *o.stats.faults_fired.entry("F-WE/F-SE/F-RE(one failure, retried)".into()).or_insert(0) += 1;
+                o.stats.probe("failed_grow_retried_to_success");
+                let from_bytes = read_s0(&img2);
+                for (what, content) in [("same session", Some(live)), ("after reopening the bytes", from_bytes)] {
+                    let content = match content {
+                        Some(c) => c,
+                        None => continue,
+                    };
+                    if let Some(pos) = foreign_byte(&content) {
+                        let mut rc = case.clone();
+                        rc.params.insert("only_k".into(), k as i64);
+                        o.replay_case = Some(rc);
+                        o.violations.push(Violation {
+                            property: "C08".into(),
+                            rule: "stale-after-retried-grow".into(),
+                            site: "fail-retry".into(),
+                            msg: format!("seam call {} of set_len failed once, the call was retried and returned Ok: \"/s0\" (was {} bytes) has {} bytes and byte {} reads {:#04x}, not zero ({})", k, s0_old.as_ref().map_or(0, |o| o.len()), content.len(), pos, content[pos], what),
+                            step: 0,
+                        });
+                        break 'all;
+                    }
+                }
+            }
+        }
         let streams: Vec<(String, u64)> = match lib.exec(&Op::Walk) {
             Res::Listing(l) => l.iter().filter(|e| e.is_stream).map(|e| (e.path.clone(), e.len)).collect(),
             _ => continue,
